@@ -410,6 +410,9 @@ func c17CoreCases(s *c17Set, thorough bool) []*c17Case {
 		paths = nil
 	}
 	paths = append(paths, s.Bases...)
+	if !s.Tiny && !s.Refresh {
+		paths = append(paths, c17ReservedSpellings(s)...)
+	}
 	var out []*c17Case
 	for _, p := range paths {
 		out = append(out, &c17Case{Method: "GET", Path: p, Host: "proxy.test", HdrClass: "plain", BodyKind: "none"})
@@ -505,6 +508,79 @@ func c17CoreCases(s *c17Set, thorough bool) []*c17Case {
 					c.BodyKind, c.BodyLen, c.BodySeed = "form", 40, int64(qi)
 				}
 				out = append(out, c)
+			}
+		}
+	}
+	return out
+}
+
+// c17Spell writes p with some of its octets percent-encoded: pick(k) for the k-th octet that is not a slash says
+// 0 = literal, 1 = upper-case hex, 2 = lower-case hex. An encoded slash is never produced (known finding for rewrite upstreams).
+func c17Spell(p string, pick func(k int) int) string {
+	var b strings.Builder
+	k := 0
+	for i := 0; i < len(p); i++ {
+		if p[i] == '/' {
+			b.WriteByte('/')
+			continue
+		}
+		switch pick(k) {
+		case 1:
+			fmt.Fprintf(&b, "%%%02X", p[i])
+		case 2:
+			fmt.Fprintf(&b, "%%%02x", p[i])
+		default:
+			b.WriteByte(p[i])
+		}
+		k++
+	}
+	return b.String()
+}
+
+// c17OwnPaths: the paths the proxy answers itself under this set's configuration (literal spelling only).
+func c17OwnPaths(s *c17Set) []string {
+	prefix, ping, ready := s.Prefix, s.PingPath, s.ReadyPath
+	if prefix == "" {
+		prefix = "/oauth2"
+	}
+	if ping == "" {
+		ping = "/ping"
+	}
+	if ready == "" {
+		ready = "/ready"
+	}
+	return []string{ping, ready, "/robots.txt", prefix + "/sign_in", prefix + "/auth", prefix + "/userinfo", prefix + "/start", prefix + "/callback", prefix + "/sign_out", prefix + "/static/css/bulma.min.css"}
+}
+
+// c17ReservedSpellings: percent-encoded spellings of the proxy's own paths (configured and default ping / ready path,
+// /robots.txt, the endpoints below the proxy prefix). Only the LITERAL path is the proxy's; a path that merely decodes
+// to it is an ordinary path and is routed like any other. One octet (first, middle, last; upper and lower hex), every
+// other octet and all octets encoded; the slash is never encoded.
+func c17ReservedSpellings(s *c17Set) []string {
+	own := map[string]bool{}
+	for _, p := range c17OwnPaths(s) {
+		own[p] = true
+	}
+	var out []string
+	seen := map[string]bool{}
+	staticTree := s.Prefix + "/static/"
+	if s.Prefix == "" {
+		staticTree = "/oauth2/static/"
+	}
+	for _, p := range append(c17OwnPaths(s), "/ping", "/ready") {
+		n := len(p) - strings.Count(p, "/")
+		for _, sp := range []string{
+			c17Spell(p, func(k int) int { return map[bool]int{true: 1}[k == n-1] }),
+			c17Spell(p, func(k int) int { return map[bool]int{true: 2}[k == 0] }),
+			c17Spell(p, func(k int) int { return map[bool]int{true: 2}[k == n/2] }),
+			c17Spell(p, func(k int) int { return map[bool]int{true: 1}[k == n/2+1] }),
+			c17Spell(p, func(k int) int { return []int{0, 1, 0, 2}[k%4] }),
+			c17Spell(p, func(k int) int { return 1 + k%2 }),
+		} {
+			// everything below the literal <prefix>/static/ is the proxy's own subtree (embedded files), however the rest is spelled
+			if !seen[sp] && !own[sp] && sp != p && !strings.HasPrefix(sp, staticTree) {
+				seen[sp] = true
+				out = append(out, sp)
 			}
 		}
 	}
